@@ -52,17 +52,19 @@ def alphabet(kind, reduced=False):
     return out
 
 
-def build_cards(kind, cards):
+def build_cards(kind, cards, pooled=("P", "Q")):
     """fresh (cvr list, mvr list)"""
     cont = contents(kind)
     cvrs, mvrs = [], []
     for i, (cc, mc, p, ph) in enumerate(cards):
         votes = {"other": {"X": True}}
+        if i % 2 == 0:  # a contest listed earlier that only every other card contains
+            votes = {"early": {"X": True}, "other": {"X": True}}
         if cont[cc] is not None:
             votes[CID] = dict(cont[cc])
         if ph:
             votes = {CID: {}} if cc == "blank" else {}
-        cvrs.append(CVR(id=f"card{i}", votes=votes, phantom=ph, tally_pool=p, pool=(p in ("P", "Q")), sample_num=i + 1))
+        cvrs.append(CVR(id=f"card{i}", votes=votes, phantom=ph, tally_pool=p, pool=(p in pooled), sample_num=i + 1))
         if mc == "unfindable":
             mvrs.append(CVR(id=f"card{i}", votes={}, phantom=True))
         else:
@@ -109,12 +111,25 @@ def ref_upper(kind):
     return 1 / (2 * SM[kind][1]) if kind in SM else F(1)
 
 
-def workflow(kind, cards, use_style, audit_type=Audit.AUDIT_TYPE.ONEAUDIT, via_all=False, add_pool=True, keep_all=False):
-    """the documented preparation on real objects; returns dict with everything the oracles need"""
+def workflow(kind, cards, use_style, audit_type=Audit.AUDIT_TYPE.ONEAUDIT, via_all=False, add_pool=True, keep_all=False, prior=False):
+    """the documented preparation on real objects; returns dict with everything the oracles need.
+    prior=True: the same assertion objects were used before, on an earlier version of the population in which batch R
+    was still pooled and the CVRs said something else (a non-initial state of the assorter)"""
     cvrs, mvrs = build_cards(kind, cards)
     con, asn, audit = build_assertion(kind, audit_type, use_style, len(cards), keep_all=keep_all)
     with warnings.catch_warnings():
         warnings.simplefilter("ignore")
+        if prior:
+            cs = [c for c in contents(kind) if c != "lacks"]
+            shift = {c: cs[(k + 1) % len(cs)] for k, c in enumerate(cs)}
+            old = [(shift.get(cc, cc), mc, p, ph) for cc, mc, p, ph in cards]
+            old_cvrs, _ = build_cards(kind, old, pooled=("P", "Q", "R"))
+            CVR.add_pool_contests(old_cvrs, CVR.pool_contests(old_cvrs))
+            with np.errstate(all="ignore"):
+                for a_ in con.assertions.values():
+                    a_.assorter.set_tally_pool_means(cvr_list=old_cvrs, tally_pools=None, use_style=use_style)
+                    if any(c.has_contest(CID) or not use_style for c in old_cvrs):
+                        a_.set_margin_from_cvrs(audit, old_cvrs)
         if add_pool:  # the documented ONEAudit preparation; without it a pooled batch may hold cards of several styles
             tally_pools = CVR.pool_contests(cvrs)
             CVR.add_pool_contests(cvrs, tally_pools)
@@ -124,8 +139,14 @@ def workflow(kind, cards, use_style, audit_type=Audit.AUDIT_TYPE.ONEAUDIT, via_a
         if not under:
             return {"under": [], "cvrs": cvrs, "mvrs": mvrs, "asn": asn, "con": con, "audit": audit}
         with np.errstate(all="ignore"):
-            if via_all:  # the contest-level route sets every margin and installs u in every test
-                Assertion.set_all_margins_from_cvrs(audit, {CID: con}, cvrs)
+            if via_all:  # the contest-level route sets every margin and installs u in every test; an earlier contest on other cards goes first
+                early = Contest.from_dict({"id": "early", "name": "early", "risk_limit": 0.05, "cards": max(1, len(cards)),
+                                           "choice_function": Contest.SOCIAL_CHOICE_FUNCTION.PLURALITY, "n_winners": 1, "candidates": ["X", "Y"],
+                                           "winner": ["X"], "audit_type": audit_type, "test": NonnegMean.alpha_mart, "use_style": use_style})
+                Assertion.make_all_assertions({"early": early})
+                for a_ in early.assertions.values():
+                    a_.assorter.set_tally_pool_means(cvr_list=cvrs, tally_pools=None, use_style=use_style)
+                Assertion.set_all_margins_from_cvrs(audit, {"early": early, CID: con}, cvrs)
             else:
                 asn.set_margin_from_cvrs(audit, cvrs)
     return {"under": under, "cvrs": cvrs, "mvrs": mvrs, "asn": asn, "con": con, "audit": audit}
